@@ -96,6 +96,17 @@ Theorem canon_nway :
 Proof. exact canon_nway_spec. Qed.
 Print Assumptions canon_nway.
 
+(* modek_tprod(B, k, X): contracting axis k of a full array and leaving the new axis in position k
+   (Y[..i_k..] = sum_j B[i_k,j] X[..j..]) is apply_tprod with identity placeholders on the first k axes,
+   for every order, mode and rectangular B. *)
+Theorem modek_tprod_spec :
+  forall (R : Type) (rO : R) (radd rmul : R -> R -> R)
+         (B : mat R) (k : nat) (f : list nat -> R) (idx : list nat),
+  k < length idx ->
+  tprod R rO radd rmul (modek_ops R B k) f idx = modek_entry R rO radd rmul B k f idx.
+Proof. exact modek_spec. Qed.
+Print Assumptions modek_tprod_spec.
+
 (* asarray(-T) = -asarray(T) for Tucker tensors. *)
 Theorem tucker_neg :
   forall (R : Type) (rO rI : R) (radd rmul rsub : R -> R -> R) (ropp : R -> R),
